@@ -51,6 +51,8 @@ class VttCue:
   _EOL_SEQ_RE = re.compile(r"\n{2,}")
   # a carriage return in the text is a line terminator for WebVTT readers
   _LINE_BREAK_RE = re.compile(r"\r\n|\r|\n")
+  # tags written by the WebVTT writer ("<" in text is escaped)
+  _TAG_RE = re.compile(r"<[^>]*>")
 
   def __init__(self, identifier: Optional[int] = None):
     self._id: int = identifier
@@ -103,8 +105,9 @@ class VttCue:
     self._textalign = textalign
 
   def is_only_whitespace_or_empty(self):
-    """Returns whether the paragraph text contains only whitespace or is empty"""
-    return len(self._text) == 0 or self._text.isspace()
+    """Returns whether the paragraph text, tags excluded, contains only whitespace or is empty"""
+    text = self._TAG_RE.sub("", self._text)
+    return len(text) == 0 or text.isspace()
 
   def normalize_eol(self):
     """Remove line breaks at the beginning and end of the paragraph, and replace
